@@ -87,13 +87,13 @@ def run(ctx, factor):
         lines = gen_lines.listing(g, g.int(0, 8), decorate=g.chance(0.5))
         r = ctx.driver.call({"op": "linespec", "lines": lines})["ok"]
         check_text(ctx, r["text"], "grammar", seen)
-        if rep.violations and factor > 1:
+        if rep.has_new() and factor > 1:
             return
     # operand decorations objdump prints for AVX-512 code (masks, zeroing, broadcast, rounding): outside the C09 forms,
     # inside this property's quantifier ("every instruction list the parser can produce from objdump output")
     for _ in range(ctx.budget(150, 5000) * factor):
         check_text(ctx, decorated_listing(g), "avx512-decorated-operands", seen)
-        if rep.violations and factor > 1:
+        if rep.has_new() and factor > 1:
             return
     for _ in range(ctx.budget(10, 400) * factor):
         path = objfuzz.assemble(ctx.scratch, [(".text", objfuzz.random_bytes(g, g.int(40, 600)))])
